@@ -40,18 +40,31 @@ Rep(T) ==
     [] T.kind = "float" ->
          {sg * m * Pow(2, x + 4) : sg \in {0 - 1, 1}, m \in 0..(Pow(2, T.p) - 1),
                                    x \in (0 - T.q)..(T.top - T.p)}
-RepMax(T) == CHOOSE r \in Rep(T) : \A s \in Rep(T) : s <= r
-RepMin(T) == CHOOSE r \in Rep(T) : \A s \in Rep(T) : r <= s
+RepMax(T) == CASE T.kind = "uint" -> Scale * (Pow(2, T.bits) - 1)
+               [] T.kind = "int" -> Scale * (Pow(2, T.bits - 1) - 1)
+               [] T.kind = "float" -> (Pow(2, T.p) - 1) * Pow(2, T.top - T.p + 4)
+RepMin(T) == CASE T.kind = "uint" -> 0
+               [] T.kind = "int" -> 0 - Scale * Pow(2, T.bits - 1)
+               [] T.kind = "float" -> 0 - RepMax(T)
 
-ValuesOf(T) == {n \in Lo..Hi : n \in Rep(T)}
+\* membership in Rep(T) by arithmetic (used to enumerate the inputs of a type)
+InRep(n, T) ==
+  CASE T.kind = "uint" -> n % Scale = 0 /\ 0 <= n /\ n <= RepMax(T)
+    [] T.kind = "int" -> n % Scale = 0 /\ RepMin(T) <= n /\ n <= RepMax(T)
+    [] T.kind = "float" ->
+         \E x \in (0 - T.q)..(T.top - T.p) :
+            Abs(n) % Pow(2, x + 4) = 0 /\ Abs(n) \div Pow(2, x + 4) < Pow(2, T.p)
 
-MCCfgSpace ==
-  {[inT |-> a, outT |-> b, preserve |-> p, writable |-> w, vals |-> <<FromScaled(n)>>, n |-> n] :
-      a \in InTypes, b \in OutTypes, p \in BOOLEAN, w \in BOOLEAN, n \in Lo..Hi}
-MCCfg == {c \in MCCfgSpace : c.n \in Rep(c.inT)}
-\* quick: the exact type alone exercises the oracle on every value; the small
-\* input types are needed for the buffer design only
-MCCfgQuick == {c \in MCCfg : c.inT = Exact \/ c.n % 8 = 0}
+\* cfg is chosen at Init: (input type, output type, mode, writability, value)
+MCInitOver(step) ==
+  \E a \in InTypes, b \in OutTypes, p \in BOOLEAN, w \in BOOLEAN, n \in Lo..Hi :
+     /\ InRep(n, a)
+     /\ (a = Exact \/ n % step = 0)
+     /\ cfg = [inT |-> a, outT |-> b, preserve |-> p, writable |-> w,
+               vals |-> <<FromScaled(n)>>, n |-> n]
+     /\ input = cfg.vals /\ output = << >> /\ status = "idle"
+MCSpec == MCInitOver(1) /\ [][Next]_vars
+ASSUME RepIsInRep == \A T \in OutTypes : \A n \in (Lo - 40)..(Hi + 40) : InRep(n, T) <=> n \in Rep(T)
 
 \* ------------------------------------------------- oracle validation ----
 C(n, T) == ToScaled(Convert(FromScaled(n), Exact, T))
